@@ -265,34 +265,41 @@ def ex_povm(p, seed):
 
 
 def ex_povm_multi(p, seed):
-    """multi-dimensional outcome index of a tensor-product POVM: matrix((i,j)) is the element with row-major serial index"""
+    """multi-dimensional outcome index of a tensor-product POVM: matrix(multi) is the element with row-major serial index;
+    2 and 3 local measurements (three factors with non-palindromic outcome counts expose stride mix-ups)"""
+    import itertools
     from quara.objects.povm import Povm
     from quara.objects.operators import tensor_product
     out = Out()
-    m1, m2 = p["m"]
-    cfg = "Q2:m=(%d,%d)" % (m1, m2)
-    c0 = A.make_system("Q1", [0])
-    c1 = A.make_system("Q1", [1])
-    pa = A.q_povm(c0, A.povm_generic(2, m1, seed, salt=m1))
-    pb = A.q_povm(c1, A.povm_generic(2, m2, seed, salt=m2 + 7))
-    ok, pv = A.call(tensor_product, pa, pb)
-    if not ok or list(pv.nums_local_outcomes) != [m1, m2]:
+    ms = list(p["m"])
+    cfg = "D%s:m=(%s)" % (",".join("2" for _ in ms), ",".join(map(str, ms)))
+    povms = []
+    for k, mk in enumerate(ms):
+        ck = A.make_system("Q1", [k])
+        povms.append(A.q_povm(ck, A.povm_generic(2, mk, seed, salt=mk + 7 * k)))
+    ok, pv = A.call(tensor_product, *povms)
+    if not ok or list(pv.nums_local_outcomes) != ms:
         out.count("multi_setup_failed")   # tensor products are C07's subject
         out.outcome = "setup-failed"
         return out
     ref = F.Ref(R.basis_mats(pv.composite_system))
     mats = [ref.mat(np.asarray(v)) for v in pv.vecs]
     cnt = 0
-    for i in range(m1):
-        for j in range(m2):
-            cnt += 1
-            want = mats[R.row_major_index((i, j), (m1, m2))]
-            det = "index=(%d,%d) of nums_local_outcomes=%r" % (i, j, pv.nums_local_outcomes)
-            g1 = check(out, "Povm.matrix", "formula", cfg + ":index=multi", A.call(pv.matrix, (i, j)), want, det)
-            g2 = check(out, "Povm.matrix_with_sparsity", "formula", cfg + ":index=multi", A.call(pv.matrix_with_sparsity, (i, j)), want, det)
-            out.count("multi_index")
-            if m1 != m2:
-                out.count("multi_index_unequal")
+    for idx in itertools.product(*[range(mk) for mk in ms]):
+        cnt += 1
+        want = mats[R.row_major_index(idx, tuple(ms))]
+        det = "index=%r of nums_local_outcomes=%r" % (idx, pv.nums_local_outcomes)
+        check(out, "Povm.matrix", "formula", cfg + ":index=multi", A.call(pv.matrix, tuple(idx)), want, det)
+        check(out, "Povm.matrix_with_sparsity", "formula", cfg + ":index=multi", A.call(pv.matrix_with_sparsity, tuple(idx)), want, det)
+        okv, vv = A.call(pv.vec, tuple(idx))
+        out.ops += 1
+        if not okv or np.abs(np.asarray(vv) - np.asarray(pv.vecs[R.row_major_index(idx, tuple(ms))])).max() > 1e-12:
+            out.fail("Povm.vec:multi-index:%s" % cfg, det)
+        out.count("multi_index")
+        if len(set(ms)) > 1:
+            out.count("multi_index_unequal")
+        if len(ms) >= 3:
+            out.count("multi_index_three_factors")
     inner(out, cnt - 1)
     out.outcome = "ok" if not out.fails else "fail"
     return out
